@@ -210,6 +210,17 @@ def run(ctx):
                 "and TLC validates result = error and delay <= 10 s",
     })
     ctx.add_sample(out[min(out)])
+    if not ctx.quick():
+        # growth beyond the listed properties: start-up with privilege dropping (spec/PrivDrop.tla);
+        # informational, never a verdict on C19
+        try:
+            import ext_startup
+            ext = ext_startup.startup_extension(ctx, False)
+        except Exception as e:
+            ext = {"skipped": "extension failed: %r" % (e,)}
+        ctx.coverage.setdefault("extensions", {})["PrivDrop"] = ext
+        log("EXTENSION PrivDrop (not a verdict on C19): %s" % json.dumps(
+            {k: v for k, v in ext.items() if k != "trials"})[:600])
     ctx.assumptions += ["the prometheus worker is exercised through an unbindable metrics address only",
                         "fault points are the feature-gated hooks in the worker loops; bind failures and the HTTP "
                         "reverse-proxy panic need no hook"]
